@@ -248,6 +248,8 @@ def _account_def(stats, plan, tr):
         stats.probe('compiled_sessions')
     if plan.get('cut'):
         stats.probe('sessions_of_two_streams_scanned_by_one_decoder')
+    if plan['knobs'].get('wire') is False:
+        stats.probe('sessions_scanned_without_wiring')
     if plan['knobs'].get('filter'):
         stats.probe('sessions_with_an_all_accepting_filter')
 
